@@ -59,6 +59,23 @@ def words_of(grammar, name):
     return out
 
 
+def latin1_variants(words):
+    """byte inputs in which text atoms are Latin-1 instead of UTF-8 encoded (what a bytes input may contain)"""
+    out = []
+    for val, w in words.items():
+        if not isinstance(val, bytes):
+            continue
+        try:
+            alt = b"".join((v.encode("latin-1") if k == "s" else v) for k, v in w if k != "bit")
+        except UnicodeEncodeError:
+            continue
+        if any(k == "bit" for k, _ in w):
+            continue
+        if alt != val:
+            out.append(alt)
+    return out
+
+
 def alphabet_of(words):
     chars = set()
     for v in words:
@@ -177,7 +194,7 @@ def run_spec(pid, name, tier, rnd, stats, samples):
     rnd.shuffle(inside)
     inside = inside[: (25 if tier == "quick" else 120)]
     if pid == "C04":
-        outside = near_misses(words, rnd, limit)
+        outside = latin1_variants(words) + near_misses(words, rnd, limit)
         for w in inside + outside:
             stats["evaluations"] += 1
             stats["distinct"].add((name, repr(w)))
@@ -243,6 +260,8 @@ def run(tier="quick", seed=0, pid="C04"):
     found = []
     t0 = time.time()
     for name in family.SPECS:
+        if pid != "C04" and name in family.C04_ONLY:
+            continue
         try:
             found.extend(run_spec(pid, name, tier, rnd, stats, samples))
         except Exception as e:
